@@ -157,6 +157,118 @@ func checkRendering(baseSig, text string, placed []ref.Tok) error {
 	return nil
 }
 
+var posCapture = regexp.MustCompile(`t\.ebnf:(\d+):(\d+)`)
+
+// positionsOf returns, for every position a diagnostic names, the ordinal of the token that starts there, counted
+// without the optional semicolons (-1: no token starts there).
+func positionsOf(text, msg string) []int {
+	toks, _, _ := scanner.Scan(text)
+	var out []int
+	for _, m := range posCapture.FindAllStringSubmatch(msg, -1) {
+		ord, found := 0, -1
+		for _, tk := range toks {
+			if tk.Kind == ";" {
+				continue
+			}
+			if fmt.Sprint(tk.Line) == m[1] && fmt.Sprint(tk.Col) == m[2] {
+				found = ord
+			}
+			ord++
+		}
+		out = append(out, found)
+	}
+	return out
+}
+
+// checkDiagnosticPositions: the positions in the diagnostics of a rejected specification name the same tokens in
+// every layout ("reported positions move by exactly the inserted text").
+func checkDiagnosticPositions(baseText, text string) error {
+	raw := func(s string) (string, error) {
+		var err error
+		if perr := rec.Guard(func() { _, err = spec.Parse("t.ebnf", strings.NewReader(s)) }); perr != nil {
+			return "", perr
+		}
+		if err == nil {
+			return "", nil
+		}
+		return err.Error(), nil
+	}
+	bmsg, err := raw(baseText)
+	if err != nil || bmsg == "" {
+		return err
+	}
+	msg, err := raw(text)
+	if err != nil {
+		return err
+	}
+	want, got := positionsOf(baseText, bmsg), positionsOf(text, msg)
+	for _, w := range want {
+		if w < 0 {
+			rec.Count("diagnostic_position_not_at_a_token", 1)
+			return nil
+		}
+	}
+	rec.Count("diagnostic_positions_compared", len(want))
+	if fmt.Sprint(want) != fmt.Sprint(got) {
+		return fmt.Errorf("the diagnostics name other tokens after re-laying out the text: token ordinals %v in the plain layout, %v in this layout\n--- plain layout:\n%s\n%s\n--- this layout:\n%s", want, got, baseText, bmsg, msg)
+	}
+	return nil
+}
+
+// seedDefect makes a model ill-formed in one of the documented ways (the result only has to be the same in every layout).
+func seedDefect(t *rapid.T, m *ref.SpecModel) string {
+	var start *ref.Decl
+	for _, d := range m.Decls {
+		if d.Kind == "rule" && d.Name == "start" {
+			start = d
+			break
+		}
+	}
+	if start == nil {
+		return "none"
+	}
+	add := func(x *ref.RHS) {
+		switch {
+		case start.RHS == nil:
+			start.RHS = x
+		case start.RHS.K == "cat":
+			start.RHS.Subs = append(start.RHS.Subs, x)
+		case start.RHS.K == "alt":
+			start.RHS = &ref.RHS{K: "cat", Subs: []*ref.RHS{{K: "grp", Subs: []*ref.RHS{start.RHS}}, x}}
+		default:
+			start.RHS = &ref.RHS{K: "cat", Subs: []*ref.RHS{start.RHS, x}}
+		}
+	}
+	kind := rapid.SampledFrom([]string{"undefined_token", "undefined_rule", "token_twice", "same_value", "bad_pattern", "two_defects"}).Draw(t, "defect")
+	at := func() int { return rapid.IntRange(0, len(m.Decls)).Draw(t, "declAt") }
+	insert := func(d *ref.Decl) {
+		i := at()
+		m.Decls = append(m.Decls[:i], append([]*ref.Decl{d}, m.Decls[i:]...)...)
+	}
+	switch kind {
+	case "undefined_token":
+		add(&ref.RHS{K: "tok", Name: "UNDEF"})
+	case "undefined_rule":
+		add(&ref.RHS{K: "nt", Name: "nowhere"})
+	case "token_twice":
+		insert(&ref.Decl{Kind: "token", Name: "TWICE", TokKind: "string", Text: "one", Semi: true})
+		insert(&ref.Decl{Kind: "token", Name: "TWICE", TokKind: "regex", Text: "tw+o", Semi: true})
+		add(&ref.RHS{K: "tok", Name: "TWICE"})
+	case "same_value":
+		insert(&ref.Decl{Kind: "token", Name: "SAME", TokKind: "string", Text: "a", Semi: true})
+		add(&ref.RHS{K: "cat", Subs: []*ref.RHS{{K: "tok", Name: "SAME"}, {K: "str", Name: "a"}}})
+	case "bad_pattern":
+		insert(&ref.Decl{Kind: "token", Name: "BAD", TokKind: "regex", Text: "a{3,1}", Semi: true})
+		add(&ref.RHS{K: "tok", Name: "BAD"})
+	default:
+		add(&ref.RHS{K: "tok", Name: "UNDEF"})
+		add(&ref.RHS{K: "nt", Name: "nowhere"})
+		insert(&ref.Decl{Kind: "token", Name: "UNKNOWN", TokKind: "predef", Text: "$NOPE", Semi: true})
+	}
+	m.FixSemis()
+	return kind
+}
+
 func padding(kind, n int) string {
 	switch {
 	case n <= 0:
@@ -222,7 +334,11 @@ func runRendering(t tb, m *ref.SpecModel, baseText, baseSig string, toks []ref.T
 	} else {
 		rec.Sample(label+"-long", fmt.Sprintf("%d bytes, padding %d: %s ... %s", len(text), pad, text[:60], text[len(text)-60:]))
 	}
-	if err := checkRendering(baseSig, text, placed); err != nil {
+	err := checkRendering(baseSig, text, placed)
+	if err == nil && strings.HasPrefix(baseSig, "ERROR") {
+		err = checkDiagnosticPositions(baseText, text)
+	}
+	if err != nil {
 		rec.Fail(t, "rendering", input{Model: m, Base: baseText, Text: text, Pad: pad}, "%v\n(text of %d bytes, padding %d)", err, len(text), pad)
 	}
 }
@@ -257,6 +373,11 @@ func TestLayoutsAndPaddings(t *testing.T) {
 	}
 	rec.Check(t, 600, 24000, func(t *rapid.T) {
 		m := gen.Spec(t, opts())
+		defect := "none"
+		if rapid.IntRange(0, 3).Draw(t, "illFormed") == 0 {
+			defect = seedDefect(t, m)
+		}
+		rec.Count("specifications_with_defect_"+defect, 1)
 		baseText := m.Text()
 		baseSig, err := signature(baseText)
 		if err != nil {
@@ -364,7 +485,11 @@ func TestReplay(t *testing.T) {
 		rec.Fail(t, "rendering", in, "%v", err)
 	}
 	want, _, _ := scanner.Scan(in.Text)
-	if err := checkRendering(baseSig, in.Text, want); err != nil {
+	err = checkRendering(baseSig, in.Text, want)
+	if err == nil && strings.HasPrefix(baseSig, "ERROR") {
+		err = checkDiagnosticPositions(in.Base, in.Text)
+	}
+	if err != nil {
 		rec.Fail(t, "rendering", in, "%v", err)
 	}
 }
